@@ -1,13 +1,21 @@
 // Package c06 decides C06: block execution is deterministic. Generated chains
 // are executed by the real BlockExecutor.ApplyBlock / BlockOperations on
-// replicas with different cache configurations, in the roles of proposer
-// (CreateProposalBlock) and receiver, on warm states and on states reopened
-// from the database, repeated in the same process and in fresh child
+// replicas with different cache configurations (always with and without the
+// snapshot tree), in the roles of proposer (CreateProposalBlock) and receiver,
+// on long-running replicas and on replicas stopped and reopened from their
+// databases at various heights, repeated in the same process and in fresh child
 // processes; app hash, stored receipts / bloom / gas, returned validators and
 // the resulting LatestBlockState must be pairwise equal and every replica must
-// accept the block. ValidatorSet.UpdateWithChangeSet must not depend on the
-// order of the change set. A simulated multi-node network with heterogeneous
-// cache configurations executes transaction-carrying blocks on every node.
+// accept the block. The workload holds storage histories (directed.go: slots
+// set, cleared and read again, reads of never-written slots, a contract with
+// storage that self-destructs and is re-created at the same address in the same
+// or a later block), validator reports handed to every replica in its own order
+// (valreports.go) and chains longer than the 128 state layers a node keeps in
+// memory (long.go: snapshot layers flattened and merged into the disk layer,
+// tries garbage-collected). ValidatorSet.UpdateWithChangeSet must not depend on
+// the order of the change set. A simulated multi-node network with
+// heterogeneous cache configurations executes transaction-carrying blocks on
+// every node.
 package c06
 
 import (
@@ -60,6 +68,12 @@ func compareFingerprints(c *core.Case, a, b *fingerprint, rel string) {
 	}
 }
 
+// reportCase: a scenario about validator reports (valreports.go).
+func reportCase(c *core.Case) {
+	r := c.Run.Rng("report-scenario", c.I)
+	runScenario(c, r, drawReportScenario(r, c.Run.Quick()), "valreports")
+}
+
 // procCase runs in child processes (two groups execute the same case list): the fingerprints are
 // written to a scratch directory and compared by the parent.
 func procCase(c *core.Case) {
@@ -108,15 +122,19 @@ func readFingerprints(dir, group string) map[int][]string {
 
 func Main() {
 	r := core.Start("C06", "exploration")
-	r.SetRule("case = generated genesis (1-4 staking validators, EOAs, value-moving and environment-recording contracts) + a chain of 3-10 blocks (built by CreateProposalBlock from a replica's pool or by hand with invalid transactions mixed in; before / at / after the Galaxias fork) applied with ValidateBlock+SaveBlock+ApplyBlock on 4 (quick) or 6 (thorough) replicas with different cache configurations, optionally reopened from their databases before the last block; non-trivial = a height whose block produced at least one receipt and was compared on all replicas; distinct by (case, height)")
+	r.SetRule("case = generated genesis (1-6 staking validators, EOAs, value-moving and environment-recording contracts, a storage-churn contract, a CREATE2 factory whose child reads its slots before writing them and can self-destruct) + a chain of 3-10 blocks (group long: 178-207 blocks, thorough up to 300) built by CreateProposalBlock from a replica's pool or by hand with invalid transactions mixed in (before / at / after the Galaxias fork), applied with ValidateBlock+SaveBlock+ApplyBlock on 4 (quick) or 6 (thorough) replicas: different cache configurations, always at least one with and one without the snapshot tree, some stopped and reopened from their databases at random heights or before the last block, long-running ones beside them; groups valreports / corpus: a validator report (members leave, join, swap with equal or own power, change power, unchanged) at most heights, handed to every replica in its own order (validator-set order, its reverse, by address, shuffled); group long: > 128 blocks with a few thousand slot writes per block in the first part, so that snapshot layers are flattened and merged into the disk layer and tries are garbage-collected, with slots and contracts written early, cleared / destroyed later and read / re-created after those changes reached the disk layer; non-trivial = a height whose block produced at least one receipt and was compared on all replicas; distinct by (case, height)")
 	r.Assume("commits are produced by signing precommits with the validator keys (consensus itself is not run in the replica groups; the simulated-network group runs it)")
 	r.Assume("which transactions a proposer picks and in which order is not part of the property (pool iteration order is random by design); only the result of executing a given block is compared, and runs are compared across processes only where they executed the same block")
-	r.Assume("validator-set changes in the replica groups are synthetic: the list the application returns is replaced, identically on all replicas but in replica-specific order, by rescaled/reduced genesis validators")
+	r.Assume("validator reports in the replica groups are synthetic: the list the application returns is replaced, identically on all replicas but in replica-specific order, by a membership process over the genesis validators (all known to the staking contract); what ApplyBlock (calculateValidatorSetUpdates, updateState) makes of it is compared, not whether the staking contract would report it")
+	r.Assume("replica configurations are those a node can be started with (mainchain/backend.go copies cache sizes, NoPruning, NoPrefetch, Preimages and SnapshotCache into blockchain.CacheConfig; --cache.snapshot=0 runs without the snapshot tree; SnapshotWait=false, i.e. background generation, is what backend.go passes); a restart is BlockChain.Stop (snapshot journal, head tries) followed by NewBlockChain on the same database, as Kardiachain.Stop / New do; crashes are C05's subject")
+	r.Assume("the snapshot tree is driven only by the node's own calls (StateDB.Commit: Update + Cap(root, 128)): merges into the disk layer are reached by chains longer than 128 blocks whose early blocks change 4 MiB of state (ballast writes inside the block gas limit), not by calling Cap with another budget")
 
 	r.Cases("valset", r.N(300, 20000), core.Opts{Workers: 16}, valsetCase)
 	// chain-executing groups run in child processes: a crash inside a node's background goroutine is then attributed
 	r.Cases("corpus", len(presets()), core.Opts{Procs: 2, Workers: 5, StallSec: 600}, corpusCase)
 	r.Cases("replicas", r.N(20, 1500), core.Opts{Procs: 4, Workers: 4, StallSec: 600}, replicaCase)
+	r.Cases("valreports", r.N(16, 600), core.Opts{Procs: 4, Workers: 4, StallSec: 600}, reportCase)
+	r.Cases("long", r.N(2, 24), core.Opts{Procs: 2, Workers: 1, StallSec: 900}, longCase)
 
 	// fresh child processes (different map hash seeds, cold caches): two groups run the same case list
 	if !r.IsChild() && os.Getenv("VERIF_ONLY_CASE") == "" {
@@ -159,18 +177,40 @@ func Main() {
 	r.Cases("network", r.N(3, 60), core.Opts{Procs: 3, Workers: 1, StallSec: 900}, networkCase)
 
 	r.Floor("valset_change_sets", 200)
-	r.Floor("pairwise_comparisons", 150)
+	r.Floor("pairwise_comparisons", 400)
 	r.Floor("proposer_built_blocks", 10)
-	r.Floor("hand_built_blocks", 20)
+	r.Floor("hand_built_blocks", 100)
 	r.Floor("blocks_with_skipped_txs", 10)
-	r.Floor("blocks_with_logs", 10)
-	r.Floor("comparisons_with_reopened_replica", 10)
-	r.Floor("validator_set_changes", 3)
+	r.Floor("blocks_with_logs", 50)
+	r.Floor("comparisons_with_reopened_replica", 100)
+	r.Floor("comparisons_snapshot_vs_trie_only", 300)
+	r.Floor("validator_set_changes", 20)
 	r.Floor("validator_set_changes_through_staking_txs", 2)
 	r.Floor("corpus_scenarios", int64(len(presets())))
 	r.Floor("repeat_heights_compared:in-process-repeat", 5)
 	r.Floor("network_heights_with_txs", 3)
 	r.Floor("networks", 2)
 	r.Floor("blocks_with_evidence", 2)
+	// storage workload: a contract with committed storage died and was re-created in the same block, and the block was compared between a replica with and one without the snapshot
+	r.Floor("same_block_recreations", 10)
+	r.Floor("same_block_recreations_over_committed_storage_compared_snapshot_vs_trie_only", 6)
+	r.Floor("contract_self_destructs_of_storage_holders", 15)
+	r.Floor("churn_slot_reads", 100)
+	r.Floor("reads_of_never_written_slots", 8)
+	// validator reports: same multiset, replica-specific orders
+	r.Floor("validator_reports_compared", 40)
+	r.Floor("validator_reports_in_3+_distinct_orders", 15)
+	r.Floor("membership_swap_reports_compared", 10)
+	r.Floor("membership_swap_reports_compared_mixed_powers", 4)
+	// long chains: the disk layer of the long-running snapshot replica moved, and what was cleared / destroyed before was read / re-created afterwards
+	r.Floor("long_chains", int64(r.N(2, 24)))
+	r.Floor("blocks_beyond_128_layers", 80)
+	r.Floor("snapshot_disk_layer_merges", 4)
+	r.Floor("slots_cleared_after_their_value_reached_the_disk_layer", 2)
+	r.Floor("reads_of_cleared_slots_after_the_clearing_reached_the_disk_layer", 6)
+	r.Floor("reads_of_cleared_slots_whose_value_and_clearing_both_reached_the_disk_layer", 2)
+	r.Floor("reads_of_slots_whose_value_is_in_the_disk_layer", 4)
+	r.Floor("comparisons_after_a_disk_merge:snapshot_vs_trie_only", 40)
+	r.Floor("comparisons_after_a_disk_merge:long_running_vs_restarted_since", 15)
 	r.Finish()
 }
